@@ -55,12 +55,19 @@ class ApiCrash(Exception):
         return {'call': self.call, 'type': self.exc_type, 'rtamt': self.is_rtamt, 'msg': self.msg}
 
 
+class NumericOverflow(Exception):
+    """exp/pow of the generated data overflowed the float range inside a real API call: the scenario is outside the
+    numeric envelope of DESIGN 3.6 (no property speaks about overflow); the runner discards the run"""
+
+
 def api(call, fn, *a, **kw):
     """run one real API call; any exception becomes ApiCrash(call, exc)"""
     try:
         return fn(*a, **kw)
     except RecursionError:
         raise
+    except OverflowError as e:
+        raise NumericOverflow('%s: %s' % (call, e))
     except Exception as e:  # noqa
         raise ApiCrash(call, e)
 
